@@ -45,6 +45,7 @@ fixed("C01", "e6efcc2", "the separator line of a loose list inside a quote insid
 fixed("C01", "dd9e149", "empty list items were dropped: '1. a / 2. / 3. b' -> '1. a / 3. b' (and renumbered on the next run, C02)", "block[empty-item]/shape:+/-item")
 fixed("C01", "8a49827", "render_table did not reset the skip-next-blank-line flag set by a heading: '# h' directly followed by a table lost the blank line after the table, and the next run read the following paragraph as a table row (C02)", "block[heading-then-table]/shape")
 fixed("C10", "b6eed66", "a heading is always followed by a blank line; directly inside an item of a tight list that made the list loose ('- ## a / - b' -> '- ## a / blank / - b': preserve did not keep the list as authored, tight did not tighten it) and, with a further block in the item, the next run separated the other items too (C02/C03 heading-then-block-in-tight-item)", "list[H|P]/list-spacing:preserve-as-authored")
+fixed("C07", "724e023", "reformat_file read the input with Path.read_text(), whose universal-newline translation turned a lone CR inside a frontmatter block into a line break ('a: x\\ry' -> two lines); the string API passed it through (also an entry-point disagreement, C15)", "file[lone-cr]/frontmatter:exact-through-file")
 fixed("C06", "a81efe7", "no blank line before a closing tag after a list item that wraps or has a continuation line: the tag was read as part of the item on the next run (also C01/C02)", "tagblock[cont-before-close-*]/tagblock:blank-line-separated")
 fixed("C17", "fa95314", "directory traversal followed symlinks to files (targets outside the tree or inside excluded directories were listed); glob arguments skipped excluded directories and .flowmarkignore", "dir/unwanted[reached-via-file-link]")
 
